@@ -451,6 +451,45 @@ def check_seek_refusals(ctx, F):
     ctx.floor('R2', 'coder Seek impls examined for own refusals', 'stream', n, 3, '%d coder Seek impls' % n, 'R2/floor/seek-refusals', public=True)
 
 
+def check_state_ctor_accepts_wrapped(ctx, F):
+    """A snapshot can only be stored and reloaded through its raw parts (lower(), range() and the public state constructor).
+    While the encoder holds back words its interval [lower, lower + range) wraps around 2^State::BITS on purpose, so the
+    constructor must accept *every* lower: its refusals may depend on `range` alone (the renormalisation bound, decided by
+    C10).  A refusal that looks at `lower` turns away genuine snapshots taken in that situation."""
+    RCS = 'stream::queue::RangeCoderState'
+    key = 'R2/state-ctor-accepts-any-lower/' + RCS
+    role = 'the state constructor refuses on `range` alone'
+    ctor = anchors.method(F, RCS, 'new')
+    if ctor is None:
+        return ctx.unresolved('R2', role, RCS, 'constructor not found', key=key)
+    ctx.touch(ctor)
+    ev, paths = rules.evaluate(ctor)
+    if not paths:
+        return ctx.unresolved('R2', role, ctor.defpath, 'not evaluated', key=key)
+    # which argument ends up in the `lower` field of the accepted literal?
+    lower_arg = None
+    for r in paths:
+        if r.end == 'return' and r.ret is not None and rules.ret_shape(r.ret)[0] == 'Ok':
+            lit = [x for x in sym.subterms(r.ret) if isinstance(x, tuple) and x and x[0] == 'agg' and x[3] and 'lower' in x[3]]
+            if lit:
+                v = lit[0][2][lit[0][3].index('lower')]
+                if isinstance(v, tuple) and v and v[0] == 'arg':
+                    lower_arg = v
+    if lower_arg is None:
+        return ctx.unresolved('R2', role, ctor.defpath, 'the accepted literal does not store an argument in `lower`', key=key)
+    n_err = 0
+    bad = None
+    for r in paths:
+        if r.end == 'return' and rules.ret_shape(r.ret)[0] == 'Err' or r.end == 'diverge':
+            n_err += 1
+            for t, v, _ in r.preds:
+                if sym.contains(t, lambda x: x == lower_arg):
+                    bad = 'a refusing exit is decided by `%s`, which looks at `lower`: while words are held back the interval wraps around 2^State::BITS, so snapshots recorded then (a few percent of all symbol boundaries) cannot be reloaded' % sym.show(t)[:90]
+    if bad:
+        return ctx.bad('R2', role, ctor.defpath, bad, key=key, loc=rules.loc(ctor))
+    ctx.ok('R2', role, ctor.defpath, '%d refusing exit(s), none looks at `lower`' % n_err, key=key)
+
+
 def simplify_partial(t):
     """partial(base, overrides) where every override re-stores the base's own projection is just base."""
     if t[0] == 'partial' and t[1][0] == 'in':
@@ -526,6 +565,7 @@ def run(ctx):
     check_held_back(ctx, F)
     check_seek_protocols(ctx, F)
     check_seek_refusals(ctx, F)
+    check_state_ctor_accepts_wrapped(ctx, F)
     c17.check_seek(ctx, F)
     check_pure_snapshots(ctx, F)
     ctx.assume('a backend write appends one word, a backend read consumes one word (C17 for the provided backends)')
